@@ -63,6 +63,9 @@ theorem sstep_spec (wf : Wf) {s : SSt} (h : SInv wf s) (op : SOp) :
       refine ⟨⟨h.inv.of_ext h2.1 h2.2, fun e he => ?_⟩, h2.2.ctrl⟩
       exact h.fly e (List.mem_of_mem_erase he)
     · exact ⟨h, fun _ _ hc => hc⟩
+  | complete k =>
+    have h1 := stopStage_spec wf h.inv.core k
+    exact ⟨⟨h.inv.of_ext h1.1 h1.2, fun e he => h1.2.isSome e.1 (h.fly e he)⟩, h1.2.ctrl⟩
 
 theorem sfoldl_inv (wf : Wf) (ops : List SOp) : ∀ (s : SSt), SInv wf s →
     SInv wf (ops.foldl (sstep wf) s) ∧ Keeps s.base (ops.foldl (sstep wf) s).base := by
